@@ -270,10 +270,9 @@ Section Search.
   Section WiderProof.
     Variable ct : ctab.
     Variables ip iLow iHigh longest0 : Z.
-    Variable pa : bool.
+    Variable pa swap fav : bool.
     Hypothesis Hct : ct_ok ct.
     Hypothesis Hpos : prefixIdx <= iLow /\ iLow <= ip /\ ip + 4 <= iHigh /\ iHigh < M32 - 65536.
-    Hypothesis Hl0 : 3 <= longest0.
 
     Notation ipIndex := (w_ipIndex prefixIdx ip).
     Notation lowest := (w_lowest prefixIdx dictIdx ip).
@@ -301,7 +300,7 @@ Section Search.
       allb pattern (vrd ip) /\ (forall i, 0 <= i < spl -> vrd (ip + i) = vrd ip) /\ 4 <= spl /\ ip + spl <= iHigh.
 
     Definition WInv (s : wst) : Prop :=
-      0 <= w_mi s < ip /\ w_mcp s = 0 /\ longest0 <= w_longest s /\
+      0 <= w_mi s < ip /\ True /\ longest0 <= w_longest s /\
       (longest0 < w_longest s -> wvalid s) /\ (iLow = ip -> w_sback s = 0) /\ RepI (w_rep s) (w_spl s).
 
     (* a candidate whose bytes were compared with the source *)
@@ -414,6 +413,14 @@ Section Search.
       intros (I1 & I2 & I3 & I4 & I5 & I6) Hx. unfold WInv, wvalid in *.
       cbn [w_mi w_mcp w_longest w_off w_sback w_rep w_spl].
       split; [exact Hx|]. split; [exact I2|]. split; [exact I3|]. split; [exact I4|]. split; [exact I5 | exact I6].
+    Qed.
+
+    Lemma WInv_set_mi_mcp s x m : WInv s -> 0 <= x < ip ->
+      WInv (mkW x (w_longest s) (w_off s) (w_sback s) m (w_rep s) (w_spl s)).
+    Proof.
+      intros (I1 & I2 & I3 & I4 & I5 & I6) Hx. unfold WInv, wvalid in *.
+      cbn [w_mi w_mcp w_longest w_off w_sback w_rep w_spl].
+      split; [exact Hx|]. split; [exact I|]. split; [exact I3|]. split; [exact I4|]. split; [exact I5 | exact I6].
     Qed.
 
     (* `if (repeat == rep_untested) {...}` *)
@@ -596,9 +603,8 @@ Section Search.
       assert (Hstep : forall s', WInv s' -> w_mi s' = w_mi s ->
                 step_ok (WCont (mkW (u32 (w_mi s' - delta_next ct (u32 (w_mi s' + w_mcp s'))))
                                     (w_longest s') (w_off s') (w_sback s') (w_mcp s') (w_rep s') (w_spl s')))).
-      { intros s' H' Hm. cbn [step_ok]. pose proof H' as (J1 & J2 & _). replace (w_mi s' + w_mcp s') with (w_mi s') by lia.
-        rewrite (u32_id (w_mi s')) by (unfold M32 in *; lia).
-        pose proof (delta_next_range ct (w_mi s') Hct) as Hd.
+      { intros s' H' Hm. cbn [step_ok]. pose proof H' as (J1 & J2 & _).
+        pose proof (delta_next_range ct (u32 (w_mi s' + w_mcp s')) Hct) as Hd.
         rewrite u32_id by (unfold M32 in *; lia).
         apply WInv_set_mi; [exact H' | lia]. }
       destruct (pa && (delta_next ct (w_mi s) =? 1) && (w_mcp s =? 0)).
@@ -608,27 +614,72 @@ Section Search.
       - apply Hstep; [exact HI | reflexivity].
     Qed.
 
-    Lemma wider_body_inv s : WInv s -> lowest <= w_mi s ->
-      step_ok (wider_body vrd prefixIdx dictIdx ct ip iLow iHigh pa false false s).
+    (* the chainSwap block: the `for` loop ends within its fuel, and only moves to a lower index *)
+    Lemma swap_loop_some : forall fuel mi pos endp accel dist mcp,
+      16 <= accel -> endp - pos < Z.of_nat fuel -> (0 < Z.of_nat fuel) ->
+      exists d m, swap_loop ct fuel mi pos endp accel dist mcp = Some (d, m).
     Proof.
-      intros HI Hlow. unfold wider_body. cbv zeta. cbn [andb].
+      induction fuel as [|f IH]; intros mi pos endp accel dist mcp Ha Hf Hf0; [lia|].
+      cbn [swap_loop]. cbv zeta. destruct (pos <? endp) eqn:E; [|exists dist, mcp; reflexivity].
+      assert (Hstep : 1 <= accel / 2 ^ 4) by (change (2 ^ 4) with 16; Z.div_mod_to_equations; lia).
+      destruct (delta_next ct (u32 (mi + u32 pos)) >? dist).
+      - apply IH; [change (2 ^ 4) with 16; lia | lia | lia].
+      - apply IH; [lia | lia | lia].
+    Qed.
+
+    Lemma swap_block_inv s : WInv s -> lowest <= w_mi s ->
+      match swap_block prefixIdx ct ip s with
+      | None => False
+      | Some (inl r) => step_ok r
+      | Some (inr s') => WInv s' /\ w_mi s' = w_mi s
+      end.
+    Proof.
+      intros HI Hlow. pose proof HI as (I1 & _). unfold swap_block. cbv zeta.
+      destruct (u32 (w_mi s + u32 (w_longest s)) <=? ipIndex); [|split; [exact HI | reflexivity]].
+      destruct (swap_loop_some (S (Z.to_nat (w_longest s - MINMATCH + 1))) (w_mi s) 0 (w_longest s - MINMATCH + 1) (2 ^ 4) 1 (w_mcp s)
+                  ltac:(change (2 ^ 4) with 16; lia) ltac:(lia) ltac:(lia)) as (d & m & Hs).
+      rewrite Hs.
+      destruct (d >? 1) eqn:E1.
+      - destruct (d >? w_mi s) eqn:E2; cbn [step_ok].
+        + apply WInv_set_mi_mcp; [exact HI | exact I1].
+        + rewrite u32_id by (unfold M32 in *; lia). apply WInv_set_mi_mcp; [exact HI | lia].
+      - split; [apply WInv_set_mi_mcp; [exact HI | exact I1] | reflexivity].
+    Qed.
+
+    Lemma wider_body_inv s : WInv s -> lowest <= w_mi s ->
+      step_ok (wider_body vrd prefixIdx dictIdx ct ip iLow iHigh pa swap fav s).
+    Proof.
+      intros HI Hlow. unfold wider_body. cbv zeta.
+      assert (Hafter : forall ml s', WInv s' -> w_mi s' = w_mi s ->
+                step_ok match (if swap && (ml =? w_longest s') then swap_block prefixIdx ct ip s' else Some (inr s')) with
+                        | None => WUndef
+                        | Some (inl r) => r
+                        | Some (inr s'') => follow_chain vrd prefixIdx dictIdx ct ip iLow iHigh pa s''
+                        end).
+      { intros ml s' A B.
+        destruct (swap && (ml =? w_longest s')).
+        - pose proof (swap_block_inv s' A ltac:(lia)) as HS.
+          destruct (swap_block prefixIdx ct ip s') as [[r|s'']|]; [exact HS | | contradiction].
+          destruct HS as (S1 & S2). apply follow_chain_inv; [exact S1 | lia].
+        - apply follow_chain_inv; [exact A | lia]. }
+      destruct (fav && (u32 (ipIndex - w_mi s) <? 8)); [apply Hafter; [exact HI | reflexivity]|].
       destruct (w_mi s >=? prefixIdx) eqn:E.
       - pose proof (cand_prefix_inv s HI Hlow ltac:(lia)) as H. cbv zeta in H.
         destruct (cand_prefix vrd prefixIdx ip iLow iHigh s) as [ml s']. cbn [snd] in H. destruct H as (A & B & C).
-        apply follow_chain_inv; [exact A | lia].
+        apply Hafter; assumption.
       - pose proof (cand_ext_inv s HI Hlow ltac:(lia)) as H. cbv zeta in H.
         destruct (cand_ext vrd prefixIdx dictIdx ip iLow iHigh s) as [ml s']. cbn [snd] in H. destruct H as (A & B & C).
-        apply follow_chain_inv; [exact A | lia].
+        apply Hafter; assumption.
     Qed.
 
     Lemma wider_loop_inv : forall nb s, WInv s ->
-      exists s', wider_loop vrd prefixIdx dictIdx ct ip iLow iHigh pa false false nb s = Some s' /\ WInv s'.
+      exists s', wider_loop vrd prefixIdx dictIdx ct ip iLow iHigh pa swap fav nb s = Some s' /\ WInv s'.
     Proof.
       induction nb as [|n IH]; intros s HI; cbn [wider_loop].
       - exists s. split; [reflexivity | exact HI].
       - destruct (w_mi s >=? lowest) eqn:E; [|exists s; split; [reflexivity | exact HI]].
         pose proof (wider_body_inv s HI ltac:(lia)) as Hw.
-        destruct (wider_body vrd prefixIdx dictIdx ct ip iLow iHigh pa false false s) as [s'|s'|]; cbn [step_ok] in Hw.
+        destruct (wider_body vrd prefixIdx dictIdx ct ip iLow iHigh pa swap fav s) as [s'|s'|]; cbn [step_ok] in Hw.
         + apply IH. exact Hw.
         + exists s'. split; [reflexivity | exact Hw].
         + contradiction.
@@ -641,29 +692,37 @@ Section Search.
     iLow <= q + hm_back m /\ hm_back m <= 0 /\
     q + hm_back m + hm_len m <= iHigh /\ q + 4 <= q + hm_back m + hm_len m.
 
-  (* LZ4HC_InsertAndGetWiderMatch (noDictCtx, chainSwap = 0, favorCompressionRatio): never out of fuel; the
-     tables keep their invariant; a result longer than [longest] is a valid match ending at least 4 bytes
-     beyond q *)
-  Theorem wider_sound t B q iLow iHigh longest0 nb pa :
-    TB t B -> B <= q -> prefixIdx <= iLow -> iLow <= q -> q + 4 <= iHigh -> iHigh < M32 - 65536 -> 3 <= longest0 ->
-    exists m t', insertAndGetWiderMatch vrd prefixIdx dictIdx t q iLow iHigh longest0 nb pa false false = Some (m, t') /\
+  (* LZ4HC_InsertAndGetWiderMatch (noDictCtx; patternAnalysis, chainSwap, favorDecSpeed on or off): never out of
+     fuel; the tables keep their invariant; a result longer than [longest] is a valid match ending at least 4
+     bytes beyond q *)
+  Theorem wider_sound_gen t B q iLow iHigh longest0 nb pa swap fav :
+    TB t B -> B <= q -> prefixIdx <= iLow -> iLow <= q -> q + 4 <= iHigh -> iHigh < M32 - 65536 ->
+    exists m t', insertAndGetWiderMatch vrd prefixIdx dictIdx t q iLow iHigh longest0 nb pa swap fav = Some (m, t') /\
       TB t' q /\ t_ntu t' = q /\ longest0 <= hm_len m /\ (longest0 < hm_len m -> mvalid iLow iHigh q m).
   Proof.
-    intros HT HB H1 H2 H3 H4 H5. unfold insertAndGetWiderMatch. cbv zeta.
+    intros HT HB H1 H2 H3 H4. unfold insertAndGetWiderMatch. cbv zeta.
     pose proof (insert_inv t q B HT ltac:(unfold M32 in *; lia) HB) as (HT1 & Hn).
     set (t1 := insert vrd prefixIdx t q) in *.
     pose proof HT1 as (T1 & T2 & T3).
     set (s0 := mkW (get (t_hash t1) (hashPtr vrd q)) longest0 0 0 0 rep_untested 0).
     assert (HI0 : WInv q iLow iHigh longest0 s0).
     { unfold WInv. subst s0. cbn [w_mi w_mcp w_longest w_off w_sback w_rep w_spl].
-      split; [apply T1|]. split; [reflexivity|]. split; [lia|]. split; [intros; lia|]. split; [reflexivity|].
+      split; [apply T1|]. split; [exact I|]. split; [lia|]. split; [intros; lia|]. split; [reflexivity|].
       intros H; discriminate H. }
-    destruct (wider_loop_inv (t_chain t1) q iLow iHigh longest0 pa T2 ltac:(lia) H5 (Z.to_nat nb) s0 HI0) as (s' & Hs' & HI').
+    destruct (wider_loop_inv (t_chain t1) q iLow iHigh longest0 pa swap fav T2 ltac:(lia) (Z.to_nat nb) s0 HI0) as (s' & Hs' & HI').
     rewrite Hs'. exists (mkHM (w_off s') (w_longest s') (w_sback s')), t1.
     split; [reflexivity|]. split; [exact HT1|]. split; [exact Hn|].
     destruct HI' as (J1 & J2 & J3 & J4 & J5 & J6). cbn [hm_len hm_off hm_back].
     split; [exact J3|]. intros Hl. exact (J4 Hl).
   Qed.
+
+  (* the configuration of LZ4HC_compress_hashChain *)
+  Theorem wider_sound t B q iLow iHigh longest0 nb pa :
+    TB t B -> B <= q -> prefixIdx <= iLow -> iLow <= q -> q + 4 <= iHigh -> iHigh < M32 - 65536 -> 3 <= longest0 ->
+    exists m t', insertAndGetWiderMatch vrd prefixIdx dictIdx t q iLow iHigh longest0 nb pa false false = Some (m, t') /\
+      TB t' q /\ t_ntu t' = q /\ longest0 <= hm_len m /\ (longest0 < hm_len m -> mvalid iLow iHigh q m).
+  Proof. intros. apply (wider_sound_gen t B); assumption. Qed.
 End Search.
 
+Print Assumptions wider_sound_gen.
 Print Assumptions wider_sound.
